@@ -210,13 +210,38 @@ class _Rename(ast.NodeTransformer):
         self.fname, self.old, self.new = fname, old, new
         self.inside = 0
 
+    def _rebinds(self, args):
+        names = [a.arg for a in args.posonlyargs + args.args + args.kwonlyargs]
+        if args.vararg:
+            names.append(args.vararg.arg)
+        if args.kwarg:
+            names.append(args.kwarg.arg)
+        return self.old in names
+
+    def _nested(self, node):
+        # a nested function / lambda with a parameter of that name has its own
+        # variable: only its default expressions (evaluated in the enclosing
+        # scope) see ours
+        node.args.defaults = [self.visit(d) for d in node.args.defaults]
+        node.args.kw_defaults = [None if d is None else self.visit(d)
+                                 for d in node.args.kw_defaults]
+        return node
+
     def visit_FunctionDef(self, node):
-        if node.name == self.fname:
+        if self.inside and self._rebinds(node.args):
+            return self._nested(node)
+        if node.name == self.fname and not self.inside:
             self.inside += 1
             self.generic_visit(node)
             self.inside -= 1
         else:
             self.generic_visit(node)
+        return node
+
+    def visit_Lambda(self, node):
+        if self.inside and self._rebinds(node.args):
+            return self._nested(node)
+        self.generic_visit(node)
         return node
 
     def visit_Name(self, node):
